@@ -995,7 +995,7 @@ class SoftwareSwitchBase (object):
 
   def _stats_aggregate (self, ofp, connection):
     if ofp.body.table_id not in (TABLE_ALL, 0):
-      return [] # No flows for other tables
+      return ofp_aggregate_stats() # No flows for other tables
     out_port = ofp.body.out_port
     if out_port == OFPP_NONE: out_port = None # Don't filter
     return self.table.aggregate_stats(ofp.body.match, out_port)
